@@ -49,7 +49,7 @@ fn main() {
     let mut kinds = std::collections::BTreeMap::<&'static str, usize>::new();
     // every layout family (component counts 1, 2, 3, 4 and f64) gets its share: the array casts are monomorphic per layout
     let mut layouts = std::collections::BTreeMap::<String, usize>::new();
-    while picked < want_a && index < enumerated + 20_000 {
+    while picked < want_a && index < enumerated + 60_000 {
         let plan = make_plan(&w, seed, index, Tier::Quick);
         index += 1;
         let Plan::Guards { buf, episodes, layout, .. } = &plan else { continue };
@@ -59,7 +59,9 @@ fn main() {
             continue;
         }
         // make sure the interesting ends of life are in the sample
-        let tag = if buf.is_empty() {
+        // stratified on (end of life, slice | single-value guard): a single-value guard that is forgotten or
+        // unwound through must be in the sample too
+        let base = if buf.is_empty() {
             "len0"
         } else if text.contains("\"Unwind\"") {
             "unwind"
@@ -67,12 +69,16 @@ fn main() {
             "forget"
         } else if text.contains("\"Owned\"") {
             "owned"
-        } else if text.contains("\"Single\"") {
-            "single"
         } else {
             "plain"
         };
-        if kinds.get(tag).copied().unwrap_or(0) >= want_a.div_ceil(5) || layouts.get(&format!("{layout:?}")).copied().unwrap_or(0) >= want_a.div_ceil(5) {
+        let tag: &'static str = match (text.contains("\"Single\""), base) {
+            (true, "unwind") => "single+unwind",
+            (true, "forget") => "single+forget",
+            (true, _) => "single",
+            (false, b) => b,
+        };
+        if kinds.get(tag).copied().unwrap_or(0) >= want_a.div_ceil(7) || layouts.get(&format!("{layout:?}")).copied().unwrap_or(0) >= want_a.div_ceil(5) {
             continue;
         }
         *kinds.entry(tag).or_default() += 1;
